@@ -349,6 +349,36 @@ theorem free_can_step {c : Cfg} {sv : Nat → Nat} {bad : Nat → Bool} {n : Nat
         subst he
         simp [hst]
 
+/-- the cache dict is only ever changed by a thread that holds the lock while doing so: if a step of `t` changes
+    the cache, `t` owned the lock before that step and still owns it afterwards -/
+theorem step_cache_changes_only_by_owner {c : Cfg} {sv : Nat → Nat} {bad : Nat → Bool} {n : Nat} {s s' : State} {t : Tid}
+    (h : Inv c sv bad n s) (hs : step c s t = some s') (hne : s'.cache ≠ s.cache) :
+    s.owner = some t ∧ s'.owner = some t := by
+  obtain ⟨h1, h2, h3, h4, h5, h6, h7, h8, h9⟩ := h
+  have h1t := h1 t
+  unfold step at hs
+  cases hst : (s.th t).stack with
+  | nil =>
+    simp only [hst] at hs
+    split at hs
+    · simp at hs
+    · injection hs with hs; subst hs; exact absurd rfl hne
+  | cons f below =>
+    obtain ⟨k, pc⟩ := f
+    simp only [hst] at hs
+    rw [hst] at h1t
+    cases pc <;> simp only [setTop, releaseOwner] at hs
+    all_goals (try (split at hs))
+    all_goals (try (split at hs))
+    all_goals (try (injection hs with hs; subst hs))
+    all_goals (try (simp at hs; done))
+    all_goals (try (exact absurd rfl hne))
+    all_goals
+      simp only [held, holds] at h1t
+      have ho : s.owner = some t := Classical.byContradiction fun hno => by
+        have := h1t hno; omega
+      exact ⟨ho, ho⟩
+
 theorem inv_step {c : Cfg} {sv : Nat → Nat} {bad : Nat → Bool} {n : Nat} {s s' : State} {t : Tid} (hre : c.reentrant = true)
     (hsv : Sound c sv bad) (h : Inv c sv bad n s) (ht : t < n) (hs : step c s t = some s') : Inv c sv bad n s' := by
   obtain ⟨a1, a2, a3⟩ := step_owner hre h ht hs
